@@ -162,6 +162,15 @@ func toEnumList(src val.EnumList, v interface{}) (val.EnumList, error) {
 }
 
 func toEnum(src val.EnumList, v interface{}) (val.Enum, error) {
+	if v == nil {
+		return val.Enum{}, fmt.Errorf("could not coerce nil into enum %v", src.String())
+	}
+	// a name wins over a value: enums may be called "0", "1", "2"
+	if s, isStr := v.(string); isStr {
+		if e, found := src.ByLabel(s); found {
+			return e, nil
+		}
+	}
 	if id, isNum := val.Conv(val.FmtInt32, v); isNum == nil {
 		if e, found := src.ById(id.Value().(int)); found {
 			return e, nil
